@@ -20,7 +20,6 @@ var needValueOptions = map[string]struct{}{
 	"--transformer":  {},
 	"-f":             {},
 	"--filter":       {},
-	"--generated":    {},
 }
 
 func parseCommands(args []string) Commands {
